@@ -246,8 +246,11 @@ def run_primitives(ctx, rep, hook, mdl):
 def same(i, m):
     if i is None or m is None:
         return False
-    if i.startswith("PANIC") or m.startswith("PANIC"):
-        return i.startswith("PANIC") and m.startswith("PANIC")
+    # a refusal is a refusal: the implementation reports an invalid format through `fatal` (exit 2, "DIED 2") since fix
+    # 48f15b5, through a panic before; the model has one error branch for it
+    rej = lambda x: x.startswith("PANIC") or x.startswith("DIED 2")
+    if rej(i) or rej(m):
+        return rej(i) and rej(m)
     return i == m
 
 
